@@ -96,9 +96,10 @@ type Sim struct {
 	failErr      syscall.Errno
 	Devs         []int // deviations injected since ResetOp
 	Log          []string
-	All          []*Datagram // every datagram ever queued
-	NoDeviations bool        // only verdict choices
-	FaultsOnly   bool        // only transient / hard receive failures (no events, no ACK replacement)
+	All          []*Datagram     // every datagram ever queued
+	NoDeviations bool            // only verdict choices
+	FaultsOnly   bool            // only transient / hard receive failures (no events, no ACK replacement)
+	CloseAnswers []syscall.Errno // menu for the result of Close (index 0 = default)
 	AckOnlyDevs  bool
 }
 
@@ -347,6 +348,13 @@ func (s *Sim) Close() error {
 	defer s.mu.Unlock()
 	s.Closes++
 	s.Log = append(s.Log, "close")
+	if len(s.CloseAnswers) > 0 {
+		// the descriptor is released whatever close(2) returns (Linux); the answer is a choice
+		if e := s.CloseAnswers[s.choose("close-result", len(s.CloseAnswers))]; e != 0 {
+			s.Log = append(s.Log, "close="+e.Error())
+			return e
+		}
+	}
 	return nil
 }
 
